@@ -728,6 +728,30 @@ class ApplicationStartJobs(ApplicationJobs):
                 self.logger.debug(f'ApplicationStartJobs.on_command_added: {command.process.namespec} cannot'
                                   f' be started on any of the chosen Supvisors among {self.identifiers}')
 
+    def on_instances_invalidation(self, invalidated_identifiers: NameList,
+                                  failed_processes: Set[ProcessStatus]) -> None:
+        """ In a non-distributed application, the Supvisors instances have been assigned to all commands when the job
+        has started. The planned commands targeting an invalidated Supvisors instance are assigned again among
+        the remaining selected Supvisors instances. If there is none, the start will fail at process_job time
+        (no resource available).
+        Without this, the start request would be sent to the lost Supvisors instance and would never time out,
+        as the timeouts are based on the ticks received from the targeted Supvisors instance.
+
+        :param invalidated_identifiers: the identifiers of the Supvisors instances that have just been declared SILENT
+        :param failed_processes: the processes that were running on the invalidated Supvisors instances and thus
+        declared in failure
+        :return: None
+        """
+        super().on_instances_invalidation(invalidated_identifiers, failed_processes)
+        if self.distribution != DistributionRules.ALL_INSTANCES:
+            self.identifiers = [identifier for identifier in self.identifiers
+                                if identifier not in invalidated_identifiers]
+            for command in sum(self.planned_jobs.values(), []):
+                if command.identifier in invalidated_identifiers:
+                    command.identifier = None
+                    command.instance_status = None
+                    self.on_command_added(command)
+
     def get_applicable_identifiers(self, process: ProcessStatus) -> NameList:
         """ Return the selected Supvisors instances whose Supervisor knows the program and has it enabled.
         The Supvisors instances of a node may not share the same Supervisor configuration.
